@@ -88,8 +88,11 @@ func executeCompaction(db *DB) (compactionMetadata *proto.CompactionMetadata, er
 		return nil, err
 	}
 
+	writerClosed := false
 	defer func() {
-		err = errors.Join(err, writer.Close())
+		if !writerClosed {
+			err = errors.Join(err, writer.Close())
+		}
 	}()
 
 	var readers []sstables.SSTableReaderI
@@ -121,6 +124,14 @@ func executeCompaction(db *DB) (compactionMetadata *proto.CompactionMetadata, er
 	iterators = verifWrapCompactionInputs(iterators)
 	reduceFunc := sstables.ScanReduceLatestWinsSkipTombstones
 	err = sstables.NewSSTableMerger(db.cmp).MergeCompact(iterators, writer, reduceFunc)
+	if err != nil {
+		return nil, err
+	}
+
+	// the merged table must be completely on disk before it is declared successful: the records sit in the
+	// writer's buffer until Close, and recovery installs whatever carries the success flag
+	writerClosed = true
+	err = writer.Close()
 	if err != nil {
 		return nil, err
 	}
